@@ -428,7 +428,8 @@ def gen_fnmatch(rng, full):
     for k in (126, 127, 128, 129, 300):
         ops.append("fnmatch %s %s 0" % (H(b"a" * k), H(b"a" * k)))
         ops.append("fnmatch %s %s 0" % (H(b"*" + b"a" * k), H(b"b" + b"a" * k)))
-        ops.append("fnmatch %s %s 1" % (H(b"a*" * 20 + b"b"), H(b"a" * k)))
+        # (the reference matcher back-tracks: keep the number of stars small on long subjects)
+        ops.append("fnmatch %s %s 1" % (H(b"a*a*b"), H(b"a" * k)))
     return ops
 
 
